@@ -57,6 +57,8 @@ pub fn gen(_rng: &mut Rng, tier: Tier, out: &mut Vec<String>) {
     let seed = std::env::args().nth(2).unwrap_or_else(|| "1".into());
     let tier = if tier == Tier::Thorough { "thorough" } else { "quick" };
     out.extend(drv(&["emit", tier, &seed]));
+    // liveness: `run` answers with the API entries that occur in at least one program rustc accepted
+    out.push("live".to_string());
 }
 
 fn unused_run(_t: &[&str]) -> String {
@@ -400,8 +402,25 @@ fn run_batch() {
             errs[i] = errs[rep[i]].clone();
         }
     }
+    // API entries (tokens of the prefix-coded expression, `to:<tag>` as `to`) of the accepted programs
+    let mut live: BTreeSet<String> = BTreeSet::new();
     for (i, c) in cases.iter().enumerate() {
-        let res = if bodies[i].is_none() {
+        if bodies[i].is_some() && errs[i].is_empty() {
+            if let Some(sx) = c.split_ascii_whitespace().nth(4) {
+                for t in sx.split(',') {
+                    let t = t.split(':').next().unwrap_or("");
+                    let is_var = t.starts_with('v') && t.len() > 1 && t[1..].chars().all(|ch| ch.is_ascii_digit());
+                    if !t.is_empty() && !is_var {
+                        live.insert(t.to_string());
+                    }
+                }
+            }
+        }
+    }
+    for (i, c) in cases.iter().enumerate() {
+        let res = if c == "live" {
+            live.iter().cloned().collect::<Vec<_>>().join(" ")
+        } else if bodies[i].is_none() {
             "malformed".to_string()
         } else if errs[i].is_empty() {
             "ok".to_string()
